@@ -322,6 +322,41 @@ def replay_saved(ctx, payload):
     return None
 
 
+def gated_rotation(ctx, prop):
+    """Stops inside the log rotation while the client keeps writing (gated interleaving, DESIGN 4.5): the flush path is
+    parked at each rotation step, a write that is synced goes through, the process stops."""
+    runs = []
+    for site in ('sm.rotate.marked', 'sm.rotate.oldsafe', 'sm.rotate.created', 'sm.rotate.swapped'):
+        d = ctx.sub('gated-' + site)
+        shutil.rmtree(os.path.join(d, 'db'), ignore_errors=True)
+        ack = os.path.join(d, 'ack')
+        if os.path.exists(ack):
+            os.remove(ack)
+        p = subprocess.run([ctx.kvh(), 'crash-rotate-window', '-dir', os.path.join(d, 'db'), '-ack', ack, '-site', site],
+                           capture_output=True, text=True, timeout=60)
+        if p.returncode != 137:
+            raise Infra(f'gated rotation scenario did not run to its stop point at {site}: rc={p.returncode} {p.stderr[-500:]}')
+        ev = [{'e': 'reset', 'sync': 'none'}]
+        for r in read_ndjson(ack):
+            if r['e'] == 'pending':
+                continue
+            ev.append({k: v for k, v in r.items() if k in ('e', 'op')})
+        ev.append({'e': 'die'})
+        o = observe(ctx, d, ('gated', 'ascii', {}, 1.0))
+        info = {'class': 'gated-rotation', 'die': [site, 1]}
+        if 'open_error' in o:
+            ev.append({'e': 'openerror', 'msg': o['open_error']})
+        else:
+            ev += [{'e': 'open'}, {'e': 'obs', 'st': o['st'], 'seq': int(o['seq'])}, {'e': 'close'}]
+        runs.append((ev, info))
+        ctx.nontrivial.add(('gated', site))
+    ctx.evaluations += len(runs)
+    ctx.traces += len(runs)
+    for i in validate(ctx, runs, 'gated'):
+        path = save_replay(ctx, 'gated', {'site': runs[i][1]['die'][0], 'trace': runs[i][0]})
+        ctx.violations.append({'what': 'stop during log rotation: ' + explain(runs[i]), 'replay': path})
+
+
 def selftest(ctx, runs):
     """A corrupted observation (one key's value changed / the surviving count changed) must be rejected."""
     for ev, info in runs:
